@@ -62,10 +62,11 @@ type runner struct {
 	findings []finding
 	nextID   int64
 	conc     bool // concurrent mode: APQ state depends on the interleaving
+	deferred []finding
 }
 
 func newRunner() *runner {
-	return &runner{or: &oracle{memo: map[string]Resp{}}, ptrs: map[string]bool{}, st: stats{PerTr: map[string]int64{}, PerOut: map[string]int64{}}}
+	return &runner{or: &oracle{memo: map[string]Resp{}, dirty: true}, ptrs: map[string]bool{}, st: stats{PerTr: map[string]int64{}, PerOut: map[string]int64{}}}
 }
 
 func (rn *runner) report(key, detail string, scen any) {
@@ -135,7 +136,9 @@ func (rn *runner) judge(a Act, cr Concrete, resp Resp, seen []Seen, prev []AReq,
 	var names []string
 	add := func(q AReq, name string) bool {
 		o, err := rn.or.alone(concretise(q, xreqOf(r)))
-		if err != nil {
+		if d, ok := err.(*disagree); ok {
+			rn.deferred = append(rn.deferred, finding{"fresh-servers-disagree{tr=" + q.Tr + "}", "request " + q.label() + ": " + d.Error(), map[string]any{"request": q, "answers": []Resp{d.a, d.b}}})
+		} else if err != nil {
 			vlib.Infra("fresh-server oracle for %s: %v", q.label(), err)
 		}
 		allowed = append(allowed, o)
@@ -162,7 +165,12 @@ func (rn *runner) judge(a Act, cr Concrete, resp Resp, seen []Seen, prev []AReq,
 	rn.st.Requests++
 	rn.st.PerTr[r.Tr]++
 	rn.st.PerOut[a.Out]++
+	dfd := rn.deferred
+	rn.deferred = nil
 	rn.mu.Unlock()
+	for _, f := range dfd {
+		rn.report(f.Key, f.Detail, f.Scen)
+	}
 	ok := false
 	for _, o := range allowed {
 		if o.key() == resp.key() {
@@ -209,6 +217,7 @@ func (rn *runner) replay(h []step, where string, ls *liveServer) {
 	}
 	rn.mu.Lock()
 	rn.st.Histories++
+	rn.or.dirty = true
 	rn.mu.Unlock()
 }
 
@@ -221,6 +230,7 @@ func main() {
 		return
 	}
 	c := vlib.NewCheck("C07", "model_checking")
+	tStart := time.Now()
 	thorough := vlib.Tier() == "thorough"
 	rng := rand.New(rand.NewSource(vlib.Seed()))
 
@@ -299,6 +309,7 @@ func main() {
 			vlib.Infra("vacuous: action %s of HttpState never taken", a)
 		}
 	}
+	fmt.Fprintf(os.Stderr, "TLC done after %.1fs (seq %.1fs, %d distinct states)\n", time.Since(tStart).Seconds(), seq.WallS, seq.Distinct)
 	edges, err := vlib.ParseEdges(seq.Printed)
 	if err != nil {
 		vlib.Infra("edges: %v", err)
@@ -327,10 +338,36 @@ func main() {
 		}
 	}
 
+	// ---- fresh-server oracle for every request of every history (all Ps: it collects garbage twice per run)
+	rn := newRunner()
+	prefill := func(h []step) {
+		for _, s := range h {
+			r := s.Act.R
+			qs := []AReq{r}
+			if s.Act.ApqHit != "" {
+				q := r
+				q.Q = s.Act.ApqHit
+				qs = append(qs, q)
+			}
+			for _, q := range qs {
+				if _, err := rn.or.alone(concretise(q, xreqOf(r))); err != nil {
+					if d, ok := err.(*disagree); ok {
+						rn.report("fresh-servers-disagree{tr="+q.Tr+"}", "request "+q.label()+": "+d.Error(), map[string]any{"request": q, "answers": []Resp{d.a, d.b}})
+					} else {
+						vlib.Infra("fresh-server oracle for %s: %v", q.label(), err)
+					}
+				}
+			}
+		}
+	}
+	for _, h := range histories {
+		prefill(h)
+	}
+	fmt.Fprintf(os.Stderr, "oracle filled after %.1fs (%d fresh-server runs)\n", time.Since(tStart).Seconds(), rn.or.n)
+
 	// ---- sequential replay: one P, one OS thread, one connection
 	runtime.GOMAXPROCS(1)
 	runtime.LockOSThread()
-	rn := newRunner()
 	t0 := time.Now()
 	for i, h := range histories {
 		rn.replay(h, fmt.Sprintf("history %d", i), nil)
@@ -355,6 +392,7 @@ func main() {
 		rn.replay(toSteps(p), fmt.Sprintf("random walk %d", w), nil)
 	}
 	seqWall := time.Since(t0).Seconds()
+	fmt.Fprintf(os.Stderr, "sequential replay done after %.1fs (%d requests, %d oracle runs)\n", time.Since(tStart).Seconds(), rn.st.Requests, rn.or.n)
 	runtime.UnlockOSThread()
 	runtime.GOMAXPROCS(runtime.NumCPU())
 	seqStats := rn.st
@@ -377,6 +415,7 @@ func main() {
 		concHist = concHist[:maxConc]
 	}
 	concStats, raceOut := runConcurrent(c, concHist)
+	fmt.Fprintf(os.Stderr, "concurrent variant done after %.1fs\n", time.Since(tStart).Seconds())
 
 	c.AddTraces(seqStats.Histories + concStats.Histories)
 	c.AddEvals(seqStats.Requests + concStats.Requests)
@@ -410,7 +449,7 @@ func main() {
 	c.Assume("resolvers are deterministic and echo operation name, coerced variables, extensions, the X-Req header and their arguments")
 	c.Assume("sync.Pool reuse is observed through the address of the *RawParams handed to the first OperationParameterMutator (no source hook)")
 	c.Assume("each history starts on a freshly constructed server (the model's Init); transport.pool is process-global and shared by all of them")
-	c.Assume("the fresh-server oracle is memoised per concrete request after two fresh servers gave the same answer")
+	c.Assume("the fresh-server oracle is memoised per concrete request; transport.pool is emptied (two GC cycles) before a fresh server is asked; every fourth answer is confirmed by a second fresh server")
 	c.Finish()
 }
 
@@ -511,15 +550,21 @@ func concurrentChild() {
 		for _, s := range h {
 			r := s.Act.R
 			if _, err := rn.or.alone(concretise(r, xreqOf(r))); err != nil {
-				fmt.Fprintln(os.Stderr, "oracle:", err)
-				os.Exit(3)
+				if d, ok := err.(*disagree); ok {
+					rn.report("fresh-servers-disagree{tr="+r.Tr+"}", d.Error(), map[string]any{"request": r})
+				} else {
+					fmt.Fprintln(os.Stderr, "oracle:", err)
+					os.Exit(3)
+				}
 			}
 			if r.Q == "-" && strings.HasPrefix(r.Ext, "H:") {
 				q := r
 				q.Q = strings.TrimPrefix(r.Ext, "H:")
 				if _, err := rn.or.alone(concretise(q, xreqOf(r))); err != nil {
-					fmt.Fprintln(os.Stderr, "oracle:", err)
-					os.Exit(3)
+					if _, ok := err.(*disagree); !ok {
+						fmt.Fprintln(os.Stderr, "oracle:", err)
+						os.Exit(3)
+					}
 				}
 			}
 		}
